@@ -104,6 +104,9 @@ def run_constructors(ctx, byte):
                     "aspolynomial(poly, names=poly)": lambda: (lambda q: numpoly.aspolynomial(q, names=q.indeterminants, **kw))(numpoly.polynomial(x)),
                     "polynomial(poly, names=tuple)": lambda: (lambda q: numpoly.polynomial(q, names=q.names, **kw))(numpoly.polynomial(x)),
                     "aspolynomial(array, names)": lambda: numpoly.aspolynomial(x, names=("q0",), **kw),
+                    # the raw structured view plus names, with the dtype request (D60: the request was ignored on this route)
+                    "polynomial(structured view, names)": lambda: (lambda q: numpoly.polynomial(numpy.array(q.values), names=q.names, **kw))(numpoly.polynomial(x)),
+                    "aspolynomial(structured view, names)": lambda: (lambda q: numpoly.aspolynomial(q.values, names=q.names, **kw))(numpoly.polynomial(x)),
                     "astype": (lambda: numpoly.polynomial(x).astype(req)) if req else None,
                     "from_attributes(2 terms)": lambda: numpoly.polynomial_from_attributes([[0], [2]], [x, x], **kw),
                 }
